@@ -229,6 +229,9 @@ func genExecHistory(r *Rng, pf execProfile) (InstD, []ReqD) {
 			}
 		}
 		rq := ReqD{Stack: stack, Gap: Pick(r, []int64{0, 1024, 4096, 40960 + 128, 102400}), CtxKey: Pick(r, []int64{-1, -1, -1, -2, 0, 1, 2})}
+		for i := range rq.NoLsn {
+			rq.NoLsn[i] = r.Chance(25)
+		}
 		if pf.withExec || r.Bool() {
 			rq.Entry = Pick(r, execEntries)
 		} else {
@@ -359,4 +362,48 @@ func driveExec(t *testing.T, prop string, pf execProfile, nQuick, nThorough int,
 func TestDrive_C01(t *testing.T) {
 	driveExec(t, "C01", execProfile{name: "C01", kinds: allKinds, maxDepth: 5, extPct: 8, coopPct: 40, maxReqs: 5}, 400, 12000,
 		"histories of 1-5 executions on shared policy instances; stacks of depth 0-5 over retry, breaker, rate limiter, bulkhead, timeout, fallback, cache (with repetition and shared instances); scripts of 1-6 function outcomes with durations; all eight entry points; occasional external cancellation. Observed per execution: returned result and error, end instant, the ordered log of every listener and of the function's entry and exit (with counters), breaker state/metrics and cache contents afterwards. Non-trivial = depth >= 2 and some layer changed the outcome or the number of invocations; distinct by (instances, requests).", nil)
+}
+
+const execRule = "Observed per execution: returned result and error, end instant, the ordered log of every listener and of the function's entry and exit (with Attempts/Retries/Executions/LastResult/LastError), breaker state and metrics and cache contents afterwards; compared event by event with the model; the property's own checker is evaluated on the implementation's log. Distinct by (instances, requests)."
+
+func TestDrive_C02(t *testing.T) {
+	pf := execProfile{name: "C02", kinds: []string{"Retry"}, maxDepth: 1, mustHave: "Retry", single: true, extPct: 0, coopPct: 0, maxReqs: 3}
+	driveExec(t, "C02", pf, 500, 15000,
+		"a retry policy as the whole stack: maxRetries -1,0..3 through WithMaxRetries or WithMaxAttempts, random handle and abort conditions, ReturnLastFailure on/off, max duration, fixed delays; scripts of 1-6 outcomes; all eight entry points; then retry policies inside random stacks. Non-trivial = the function ran more than once or a failure was handled. "+execRule,
+		func(w *CaseWriter, rng *Rng, add func(InstD, []ReqD, string)) {
+			// retry inside / around other policies
+			pf2 := execProfile{name: "C02b", kinds: allKinds, maxDepth: 4, mustHave: "Retry", extPct: 5, coopPct: 30, maxReqs: 3}
+			n := 150
+			if envTier() == "thorough" {
+				n = 5000
+			}
+			for i := 0; i < n; i++ {
+				inst, reqs := genExecHistory(rng, pf2)
+				if boundedScript(reqs) {
+					add(inst, reqs, "retry-in-stack")
+				}
+			}
+		})
+}
+
+func TestDrive_C10(t *testing.T) {
+	pf := execProfile{name: "C10", kinds: []string{"Retry", "Breaker", "Limiter", "Bulkhead", "Timeout", "Fallback", "Cache"}, maxDepth: 4, mustHave: "Fallback", extPct: 10, coopPct: 40, maxReqs: 3}
+	driveExec(t, "C10", pf, 450, 15000,
+		"stacks of depth 1-5 containing at least one fallback (WithResult/WithError/func echoing LastResult/func wrapping LastError) with random handle conditions, around and inside retry, breaker, rate limiter, bulkhead, timeout and cache policies so that the inner outcome ranges over plain results, handled and unhandled errors, ExceededError, ErrOpen, ErrFull, rate-limit and timeout errors. Non-trivial = some layer changed the outcome. "+execRule, nil)
+}
+
+func TestDrive_C11(t *testing.T) {
+	pf := execProfile{name: "C11", kinds: []string{"Retry", "Retry", "Breaker", "Breaker", "Fallback", "Timeout", "Bulkhead", "Cache"}, maxDepth: 3, mustHave: "Cache", extPct: 0, coopPct: 20, maxReqs: 6}
+	driveExec(t, "C11", pf, 450, 15000,
+		"histories of 1-6 executions on shared caches and policy instances; stacks containing a cache policy (configured key 0-3, CacheIf conditions, pre-populated stores) with stateful breakers/bulkheads/retries inside; context keys none / non-string / string (empty, equal, different). Non-trivial = a hit, a store or a handled failure occurred. "+execRule, nil)
+}
+
+func TestDrive_C16(t *testing.T) {
+	pf := execProfile{name: "C16", kinds: allKinds, maxDepth: 5, extPct: 10, coopPct: 40, maxReqs: 4}
+	driveExec(t, "C16", pf, 400, 12000, "random stacks and histories as for C01, with every policy listener registered and executor listeners registered in random subsets. "+execRule, nil)
+}
+
+func TestDrive_C17(t *testing.T) {
+	pf := execProfile{name: "C17", kinds: allKinds, maxDepth: 5, extPct: 10, coopPct: 40, maxReqs: 4, withExec: true}
+	driveExec(t, "C17", pf, 400, 12000, "random stacks and histories as for C01 through the entry points that hand an Execution to the function, so that counters are read inside the function as well as in every listener. "+execRule, nil)
 }
